@@ -4,8 +4,12 @@
    the bits above 2^64), UnmarshalBytes / UnmarshalString (`ln := int(uln)`, `len(buf) < ln+idx`,
    `buf[idx : idx+ln]`; Go int is 64 bit, `ln+idx` wraps).  Definitions only.
 
-   [guard] = true adds the missing guard `ln < 0 || ln+idx < idx -> error` (the repaired decoder);
-   the code on this tree is [guard] = false. *)
+   [guard] = false is the dependency's function itself (what the /repo decoders called before the repair,
+   and what the dependency still is).  [guard] = true is utils.UnmarshalBytes / UnmarshalString of /repo
+   (pkg/utils/unmarshal.go), through which every /repo decoder now reads its length-prefixed fields:
+   checkBytesLen reads the varint the same way and returns an error when `ln < 0 || ln+idx < idx`, then
+   the dependency's function is called on the same buffer - i.e. the dependency's body behind the guard
+   it misses. *)
 From LR Require Import lib.Base lib.DecLib.
 
 Local Open Scope Z_scope.
@@ -40,7 +44,9 @@ Fixpoint unmarshal_uint_go (buf : bytes) (idx : Z) (shft res : N) : outcome (Z *
   end.
 Definition unmarshal_uint (buf : bytes) : outcome (Z * N) := unmarshal_uint_go buf 0 0%N 0%N.
 
-(* UnmarshalBytes(buf, _) / UnmarshalString: number of bytes read and the value *)
+(* UnmarshalBytes(buf, _) / UnmarshalString: number of bytes read and the value.
+   guard = true: utils.UnmarshalBytes (checkBytesLen, then xbinary.UnmarshalBytes: the second reading of the
+   varint gives the same idx, uln); guard = false: xbinary.UnmarshalBytes alone *)
 Definition unmarshal_bytes_g (guard : bool) (buf : bytes) : outcome (Z * bytes) :=
   '(idx, uln) <- unmarshal_uint buf ;;
   let ln := to_int64 (Z.of_N uln) in
@@ -50,6 +56,7 @@ Definition unmarshal_bytes_g (guard : bool) (buf : bytes) : outcome (Z * bytes) 
   res <- slice buf idx hi ;;
   Ok (hi, res).
 
+(* the dependency's xbinary.UnmarshalBytes *)
 Definition unmarshal_bytes : bytes -> outcome (Z * bytes) := unmarshal_bytes_g false.
 
 (* ---- the encoders (used by the examples and the harness-independent round-trip sanity checks) ---- *)
